@@ -515,6 +515,9 @@ func doParent(p *props.Prop, tier string, seed uint64, root string, jobs int, ra
 		observed[k] = v
 	}
 	for k, s := range agg.Sets {
+		if strings.HasPrefix(k, "_") {
+			continue // cross-case bookkeeping of a property's Finish function, not an observation
+		}
 		var vs []string
 		for v := range s {
 			vs = append(vs, v)
